@@ -44,7 +44,21 @@ def families(tier, rng):
         for _ in range(rng.choice([3, 4, 5, 6])):
             seq.append(rng.choice(logins) if rng.random() < 0.55 else rng.choice(others))
         seqs.append(tuple(seq))
-    return [("hist", build(s)) for s in seqs]
+    fam = [("hist", build(s)) for s in seqs]
+    # a transfer command accepted under one login whose data connection is made only after the login state has changed
+    # (or after other commands): the worker must not serve anybody else's tree, and nothing at all without a login
+    xfer = {"retr": "RETR f", "stor": "STOR zz", "appe": "APPE f", "list": "LIST", "mlsd": "MLSD", "list_d": "LIST d", "retr_rel": "RETR d/g"}
+    inter = [["USER u1"], ["USER u2"], ["USER nobody"], ["USER anonymous"], ["USER u1", "PASS pw1"], ["USER u1", "PASS nope"], ["CWD d"], ["PWD"],
+             ["USER u2", "CWD h"], ["REST 1"], ["XYZZY"]]
+    for first in (["USER u1", "PASS pw1"], ["USER u2"], ["USER anonymous"]):
+        for pasv in ("PASV", "EPSV"):
+            for xk, xc in xfer.items():
+                for it in inter:
+                    st = [["connect", S]] + [["send", S, c] for c in first] + [["send", S, pasv], ["send", S, xc]] + [["send", S, c] for c in it]
+                    st += [["dconnect", S]] + ([["dsend", S, [5, 6]]] if xk in ("stor", "appe") else []) + [["deof", S]]
+                    st += [["send", S, "PWD"], ["send", S, "MLST f"]]
+                    fam.append(("parked", st))
+    return fam
 
 
 def run(tier, seed):
@@ -58,7 +72,8 @@ def run(tier, seed):
     cfg1 = gen.std_cfg(ns=1)
     corecheck.validate(chk, cfg1, gen.STD_TREE, scheds, label="hist:anon")
     cfg2 = gen.std_cfg(ns=1, users=[u for u in gen.STD_USERS if u["id"] != "anon"])
-    sub = scheds if tier != "quick" else scheds[: len(KEYS) ** 2 + len(KEYS) + 1] + scheds[-600:]
+    parked = [s for f, s in fam if f == "parked"]
+    sub = scheds if tier != "quick" else scheds[: len(KEYS) ** 2 + len(KEYS) + 1] + scheds[-600 - len(parked):]
     corecheck.validate(chk, cfg2, gen.STD_TREE, sub, label="hist:noanon")
     chk.cov["rule"] = ("all command histories of length <= 2 and seeded ones of length 3..6 over %d command kinds (every login "
                        "variant x every guarded verb incl. transfers with a data connection), each followed by probes; the trace "
